@@ -1275,10 +1275,11 @@ theorem pickleAutoref_counts (ext : Nat → Nat) (f : PickleFile) (levels : Bool
     (hwf : PickleWF f) (hr : RootsResolvable f)
     (lm : List (Nat × Nat)) (m1 : Mgr)
     (hv : loadVars levels f.vars.length f.vars [] m = (.ok lm, m1))
-    (hg : Contig m1.tbl) :
+    (hg : Contig m1.tbl)
+    (hperm : levels = true → levelsPermutation f.vars = true) :
     ∃ roots' m', loadPickleAutoref f levels m = (.ok roots', m') ∧ Inv m' ∧
       RefExact m' (extAdd ext (roots'.values.map Int.natAbs)) ∧ LoadedFrom f m'.tbl roots' := by
-  obtain ⟨roots', m2, e2, I2, R2, L2⟩ := pickle_load_counts ext f levels m hI hx hb hc hwf hr lm m1 hv hg
+  obtain ⟨roots', m2, e2, I2, R2, L2⟩ := pickle_load_counts ext f levels m hI hx hb hc hwf hr lm m1 hv hg hperm
   have hmem : ∀ u ∈ roots'.values, m2.tbl.Mem u := by
     intro u hu
     obtain ⟨_, h, _⟩ := RootsRel.right_mem L2 u hu
